@@ -21,6 +21,8 @@ Record step := {
 (* Recorded times are written relative to the first clock reading t0 of the trace (19-digit numerals are
    slow to parse): s_a = a - t0, s_b = b - a, s_tw = tw - a; deadlines and scores = value - t0, the untimed
    Expire 0 stays 0. [reb_step] restores the absolute values before anything is checked. *)
+(* g = slack of the interval checker = largest spacing of the score conversion f64 on int64 (1024); the model
+   run itself uses f64 *)
 Inductive case :=
 | CTrace (defttl g t0 : Z) (steps : list step)
 | CTicker (expected observed lost : nat).
@@ -42,7 +44,7 @@ Definition out_eqb (x y : out) : bool :=
 Definition to_tstep (s : step) : tstep := {| t_op := s_op s; t_a := s_a s; t_b := s_b s; t_out := s_out s |}.
 
 Definition model_step (g defttl : Z) (st : state) (s : step) : state * nat :=
-  let '(st', o) := mstep (f64r g) defttl st (s_tw s) (s_op s) in
+  let '(st', o) := mstep f64 defttl st (s_tw s) (s_op s) in
   let ok := (s_a s <=? s_tw s) && (s_tw s <=? s_b s) && out_eqb o (s_out s)
             && list_eqb kent_eqb (member st') (s_mem s) && list_eqb zz_eqb (visit st') (s_vis s) in
   (st', if ok then 0%nat else 1%nat).
